@@ -12,6 +12,19 @@ from .langs import LANGS
 HERE = os.path.dirname(os.path.abspath(__file__))
 
 
+def table_key():
+    """hash of what the tables depend on: the speller classes (oracle/langs.py up to the LANGS table, en.py, base.py) and the
+    table computation below -- not the word lists for the stream checks that follow the spellers in langs.py"""
+    langs_src = open(os.path.join(HERE, 'langs.py'), 'rb').read()
+    cut = langs_src.find(b'\nLANGS = {')
+    if cut > 0:
+        langs_src = langs_src[:cut]
+    me = open(os.path.join(HERE, 'fusion.py'), 'rb').read()
+    start = me.find(b'\ndef flag_assignments')
+    src = langs_src + b''.join(open(os.path.join(HERE, f_), 'rb').read() for f_ in ('en.py', 'base.py')) + me[start:]
+    return hashlib.sha256(src).hexdigest()[:16]
+
+
 def flag_assignments(f):
     """all assignments of the variant flags that can matter below 1000 (flags of higher groups stay False)"""
     import re
@@ -52,8 +65,7 @@ def spellings(L, n, digs, f, slots, side):
 def fusion_table(code):
     """R = {(a, b, c)}: some standard spelling of c consists of exactly the number words of a followed by those of b"""
     L = LANGS[code]
-    src = b''.join(open(os.path.join(HERE, f_), 'rb').read() for f_ in ('langs.py', 'en.py', 'base.py'))
-    key = hashlib.sha256(src + open(__file__, 'rb').read()).hexdigest()[:16]
+    key = table_key()
     path = os.path.join(HERE, 'tables', 'fusion-%s-%s.json' % (code, key))
     if os.path.exists(path):
         return [tuple(x) for x in json.load(open(path))]
